@@ -165,7 +165,8 @@ def smear(img, distance, angle=None, pixelscale=1, oversample=1):
     if angle is None:
         angle = np.random.uniform(0, 2 * np.pi)
     else:
-        angle = np.radians(angle)
+        # (np.radians of a small NumPy integer is evaluated in half precision)
+        angle = np.radians(float(angle))
 
     yy_rot = np.sin(angle) * yy + np.cos(angle) * xx
 
